@@ -82,9 +82,11 @@ def run_case(c):
             stage = "place"
             pl = pf(vres, nets, machine, cons, **kw)
             stage = "allocate"
-            al = allocate(vres, nets, machine, cons, pl)
+            # allocate and route read their constraints once: a caller may hand them a generator / filter object
+            once = (lambda: (k for k in cons)) if c.get("oneshot") else (lambda: cons)
+            al = allocate(vres, nets, machine, once(), pl)
             stage = "route"
-            rt = route(vres, nets, machine, cons, pl, al, core_res, radius=c["radius"])
+            rt = route(vres, nets, machine, once(), pl, al, core_res, radius=c["radius"])
             stage = "tables"
             tb = routing_tree_to_tables(rt, net_keys)
             stage = "minimise"
